@@ -219,13 +219,20 @@ def validate_responder(res, runs, name, family="conn"):
 
 # ---------------------------------------------------------------- streams (Stream.v)
 
+def ival(x):
+    """stream element as the model's value: an int, or the Seq of a struct element"""
+    if isinstance(x, dict):
+        x = x.get("Seq")
+    return x if isinstance(x, int) and not isinstance(x, bool) else -1     # -1: not a value any producer offers
+
+
 def stream_events(run, client=None, cconn=None):
     """events keyed by the subscription's token; channel ids are resolved through och.alloc / resp.chreg"""
     ml = main_labels(run)
     client, cconn = client or ml[1], cconn or ml[0]
     tok_of_id = {}
     for e in run["events"]:
-        if e["c"] == client and e["p"] == "call.start" and (e["a"][1] or "").endswith("Sub"):
+        if e["c"] == client and e["p"] == "call.start" and (e["a"][1] or "").endswith(("Sub", "SubS")):
             args = e["a"][4] if len(e["a"]) > 4 else []
             i = nid(e["a"][0])
             if args and i is not None:
@@ -262,7 +269,7 @@ def stream_events(run, client=None, cconn=None):
                 elif p == "och.reg":
                     out.append("(%d, OchReg)" % t)
                 elif p == "och.val.v":
-                    out.append("(%d, OchVal %d)" % (t, a[1]))
+                    out.append("(%d, OchVal %d)" % (t, ival(a[1])))
                 else:
                     out.append("(%d, OchClose)" % t)
         elif c == cconn:
@@ -284,10 +291,10 @@ def stream_events(run, client=None, cconn=None):
                     out.append("(%d, CcClose)" % t)
         elif c == client and p == "sink.val":
             if pending:
-                out.append("(%d, SinkVal %d)" % (pending[0], a[0]))
+                out.append("(%d, SinkVal %d)" % (pending[0], ival(a[0])))
                 pending = []
             else:
-                out.append("(999999, SinkVal %d)" % a[0])
+                out.append("(999999, SinkVal %d)" % ival(a[0]))
     return out
 
 
